@@ -10,10 +10,46 @@ import (
 	"github.com/openacid/low/bmtree"
 )
 
+var c11Tick int
+
 func init() {
 	// [s, from, to] -> [k, value]
 	Exec["bitmap.FromStr32"] = func(a []V) string {
-		k, v := bitmap.FromStr32(a[0].Str(), a[1].I32(), a[2].I32())
+		s, from, to := a[0].Str(), a[1].I32(), a[2].I32()
+		k, v := bitmap.FromStr32(s, from, to)
+		c11Tick++
+		if c11Tick%16 == 0 {
+			// one case in 16: the same call is then made by three callers at once, next to three callers
+			// converting other keys (the complement, a shifted copy) over the same window; the first answer
+			// that differs from the lone caller's is the observation
+			o1, o2 := []byte(s), []byte(s+"\xff\x00\xff\x00\xff")
+			for i := range o1 {
+				o1[i] = ^o1[i]
+			}
+			others := []string{string(o1), string(o2[1:]), "\xff\xff\xff\xff\xff\xff\xff\xff"}
+			var bad [3]struct {
+				hit bool
+				k   int32
+				v   uint64
+			}
+			lockstep(6, 150, func(g, j int) {
+				if g < 3 {
+					if k2, v2 := bitmap.FromStr32(s, from, to); (k2 != k || v2 != v) && !bad[g].hit {
+						bad[g].hit, bad[g].k, bad[g].v = true, k2, v2
+					}
+				} else {
+					func() {
+						defer func() { recover() }()
+						bitmap.FromStr32(others[g-3], from, to)
+					}()
+				}
+			})
+			for _, b := range bad {
+				if b.hit {
+					return L(I32(b.k), U(b.v))
+				}
+			}
+		}
 		return L(I32(k), U(v))
 	}
 	// [s, from, h] -> path word
